@@ -25,6 +25,7 @@ typedef struct {
   uint8_t chosen;         /* index into enabled[] */
   uint8_t op, obj;        /* pending op/object of the chosen thread */
   uint64_t state_hash;    /* abstract state at this choice point */
+  uint64_t hb_hash;       /* happens-before state: thread histories + scheduler state (sound key for state matching) */
 } sx_point_t;
 
 typedef struct {
